@@ -18,6 +18,7 @@ for p in $PROPS; do
   OUT=$(VERIF_REPO="$WT" "$TRY/check" "$p" "$TIER" 2>&1); RC=$?
   V=$(printf '%s\n' "$OUT" | grep -c '^VIOLATION')
   printf '%s tier=%s exit=%d violations=%s | %s\n' "$p" "$TIER" "$RC" "$V" "$(printf '%s\n' "$OUT" | grep -A2 '^VIOLATION' | sed -n '3p' | cut -c1-300)"
+  printf "    %s\n" "$(printf "%s\n" "$OUT" | tail -n 1 | cut -c1-300)"
   [ "$RC" = 2 ] && printf '%s\n' "$OUT" | tail -n 5
 done
 git -C "$WT" reset -q --hard
